@@ -9,6 +9,7 @@ from rdflib.term import URIRef, BNode, Literal
 from rdflib.namespace import RDF, XSD
 
 BASE = "http://ex.org/dir/doc"
+BASE2 = "http://ex.org/a/b/doc2"
 NSS = {"http://ex.org/ns#": "n", "http://ex.org/dir/": "d", "urn:x:": "u", "http://ex.org/a/b/": "ab"}
 LOCALS = ["a\u00a0b", "a", "b1", "c-d", "e.f", "_g", "1h", "i%20j", "k(l)", "m:n", "o~p", "é", "-y", "a/b", "q?r", "s#t", "", ".z", "x1", "z.", "a..b", "uid", "kind"]
 XML_LOCALS = ["a", "b1", "c-d", "e.f", "_g", "x1", "é", "Name"]
@@ -123,6 +124,102 @@ def pn_local(rng, local):
     return "".join(out)
 
 
+# ------------------------------------------------------------------ relative references (RFC 3986 section 5.2, transcribed)
+_URI = re.compile(r"^(?:([^:/?#]+):)?(?://([^/?#]*))?([^?#]*)(?:\?([^#]*))?(?:#(.*))?$", re.S)
+
+
+def _remove_dots(path):
+    out = []
+    i = path
+    while i:
+        if i.startswith("../"): i = i[3:]
+        elif i.startswith("./"): i = i[2:]
+        elif i.startswith("/./"): i = i[2:]
+        elif i == "/.": i = "/"
+        elif i.startswith("/../"):
+            i = i[3:]
+            if out: out.pop()
+        elif i == "/..":
+            i = "/"
+            if out: out.pop()
+        elif i in (".", ".."): i = ""
+        else:
+            j = i.find("/", 1)
+            seg, i = (i, "") if j < 0 else (i[:j], i[j:])
+            out.append(seg)
+    return "".join(out)
+
+
+def resolve(base, ref):
+    bs, ba, bp, bq, bf = _URI.match(base).groups()
+    rs, ra, rp, rq, rf = _URI.match(ref).groups()
+    if rs is not None: s_, a_, p_, q_ = rs, ra, _remove_dots(rp), rq
+    else:
+        s_ = bs
+        if ra is not None: a_, p_, q_ = ra, _remove_dots(rp), rq
+        else:
+            a_ = ba
+            if rp == "":
+                p_ = bp; q_ = rq if rq is not None else bq
+            else:
+                if rp.startswith("/"): p_ = _remove_dots(rp)
+                else:
+                    merged = ("/" + rp) if (ba is not None and bp == "") else (bp[:bp.rfind("/") + 1] + rp)
+                    p_ = _remove_dots(merged)
+                q_ = rq
+    out = (s_ + ":" if s_ is not None else "") + ("//" + a_ if a_ is not None else "") + p_ + ("?" + q_ if q_ is not None else "") + ("#" + rf if rf is not None else "")
+    return out
+
+
+def relative_refs(target, base):
+    """relative references that resolve (RFC 3986 5.2) against base to exactly target; [] if none of the usual shapes does"""
+    t = _URI.match(target).groups(); b = _URI.match(base).groups()
+    if t[0] != b[0] or t[1] != b[1] or t[1] is None: return []
+    tail = ("?" + t[3] if t[3] is not None else "") + ("#" + t[4] if t[4] is not None else "")
+    cands = []
+    if t[2] == b[2] and t[3] == b[3]:
+        cands.append("#" + t[4] if t[4] is not None else "")
+    if t[2].startswith("/"):
+        cands.append(t[2] + tail)
+        cands.append("//" + t[1] + t[2] + tail)
+        bdir = b[2][:b[2].rfind("/") + 1].split("/")[1:-1]; tsegs = t[2].split("/")[1:]
+        k = 0
+        while k < len(bdir) and k < len(tsegs) - 1 and bdir[k] == tsegs[k]: k += 1
+        rel = "../" * (len(bdir) - k) + "/".join(tsegs[k:])
+        if rel: cands += [rel + tail, "./" + rel + tail]
+        if len(bdir) >= 1: cands.append("../" + "/".join(bdir[-1:] + []) + "/" + "../" * 0 + "/".join(tsegs[len(bdir):]) + tail if tsegs[:len(bdir)] == bdir else rel + tail)
+    good = []
+    for c in cands:
+        first = c.split("/")[0].split("?")[0].split("#")[0]
+        if ":" in first: continue                 # would be read as a scheme
+        try:
+            if resolve(base, c) == target and c not in good: good.append(c)
+        except Exception: pass
+    return good
+
+
+def _selftest_resolve():
+    base = "http://a/b/c/d;p?q"
+    ex = {"g:h": "g:h", "g": "http://a/b/c/g", "./g": "http://a/b/c/g", "g/": "http://a/b/c/g/", "/g": "http://a/g", "//g": "http://g", "?y": "http://a/b/c/d;p?y", "g?y": "http://a/b/c/g?y",
+          "#s": "http://a/b/c/d;p?q#s", "g#s": "http://a/b/c/g#s", ";x": "http://a/b/c/;x", "": "http://a/b/c/d;p?q", ".": "http://a/b/c/", "./": "http://a/b/c/", "..": "http://a/b/", "../": "http://a/b/",
+          "../g": "http://a/b/g", "../..": "http://a/", "../../g": "http://a/g", "../../../g": "http://a/g", "/./g": "http://a/g", "/../g": "http://a/g", "g.": "http://a/b/c/g.", ".g": "http://a/b/c/.g",
+          "./../g": "http://a/b/g", "./g/.": "http://a/b/c/g/", "g/./h": "http://a/b/c/g/h", "g/../h": "http://a/b/c/h", "g;x=1/./y": "http://a/b/c/g;x=1/y", "g;x=1/../y": "http://a/b/c/y", "g?y/./x": "http://a/b/c/g?y/./x", "g#s/../x": "http://a/b/c/g#s/../x"}
+    bad = [(r, resolve(base, r), e) for r, e in ex.items() if resolve(base, r) != e]
+    return bad
+
+
+def selftest():
+    bad = _selftest_resolve()
+    if bad: return "FAIL reference resolution differs from RFC 3986 section 5.4: %s" % bad[:3]
+    n = 0
+    for t in ["http://ex.org/dir/doc", "http://ex.org/dir/doc#f", "http://ex.org/dir/x/y", "http://ex.org/a/b/c", "http://ex.org/", "http://ex.org/dir/", "http://ex.org/dir/a b", "http://ex.org/dir/q?r"]:
+        for b in ["http://ex.org/dir/doc", "http://ex.org/a/b/doc2", "http://ex.org/x"]:
+            for c in relative_refs(t, b):
+                if resolve(b, c) != t: return "FAIL %r against %r" % (c, b)
+                n += 1
+    return "ok (RFC 3986 5.4: 32 examples; %d generated references resolve back)" % n
+
+
 # ------------------------------------------------------------------ N-Triples / N-Quads
 def nt_string(rng, s):
     out = []
@@ -167,6 +264,7 @@ class Turtle:
     def __init__(self, rng):
         self.rng = rng
         self.base_on = rng.random() < 0.5
+        self.base = BASE if self.base_on else None
         self.prefixes = {ns: p for ns, p in NSS.items() if rng.random() < 0.8}
         if rng.random() < 0.5: self.prefixes[str(XSD)] = "xsd"
         if rng.random() < 0.3: self.prefixes["http://ex.org/ns#"] = ""
@@ -183,7 +281,7 @@ class Turtle:
             out.insert(rng.randint(0, len(out)), "@base <%s> ." % BASE if rng.random() < 0.5 else "%s <%s>" % (rng.choice(["BASE", "base"]), BASE))
         return out
 
-    def redeclare(self):
+    def redeclare(self, force_base=False):
         """mid-document: rebind prefixes to other namespaces and move the base"""
         rng = self.rng; out = []
         items = list(self.prefixes.items())
@@ -191,31 +289,20 @@ class Turtle:
             (n1, p1), (n2, p2) = rng.sample(items, 2)
             self.prefixes[n1], self.prefixes[n2] = p2, p1
             out += ["@prefix %s: <%s> ." % (p2, n1), "PREFIX %s: <%s>" % (p1, n2)]
-        if rng.random() < 0.5:
-            if self.base_on and rng.random() < 0.5:
-                self.base_on = False; out.append("@base <http://other.example/x/y> .")   # later IRIs are written in full or prefixed
-            elif not self.base_on:
-                self.base_on = True; out.append("BASE <%s>" % BASE)
+        if force_base or rng.random() < 0.6:
+            # move the base: later relative references are written against the new one (the same reference text may now mean another IRI)
+            self.base = BASE2 if self.base != BASE2 else BASE
+            out.append("@base <%s> ." % self.base if rng.random() < 0.5 else "%s <%s>" % (rng.choice(["BASE", "base", "Base"]), self.base))
         return out
 
     def iriref(self, u):
         rng = self.rng; s = str(u)
-        if self.base_on and rng.random() < 0.5:
-            d = BASE.rsplit("/", 1)[0] + "/"
-            if s == BASE and rng.random() < 0.5: return "<>"
-            if s.startswith(BASE + "#"): return "<%s>" % s[len(BASE):]
-            if s.startswith(d):
-                rel = s[len(d):]
-                if rel and ":" not in rel.split("/")[0] and not rel.startswith(("/", "?", "#", ".")) and ".." not in rel:
-                    return "<%s>" % "".join(uesc(ch) if rng.random() < 0.1 and ch != "%" else ch for ch in rel)
-            if s.startswith("http://ex.org/") and rng.random() < 0.7:
-                path = s[len("http://ex.org"):]
-                k = rng.random()
-                if k < 0.4: return "<%s>" % path                  # absolute-path reference
-                if k < 0.6: return "<//ex.org%s>" % path          # network-path reference
-                if not path.startswith("/dir/") and not path.startswith("//"): return "<..%s>" % path   # up one level from /dir/doc
-                if path.startswith("/dir/") and ":" not in path[5:].split("/")[0] and path[5:] and not path[5:].startswith(("/", "?", "#")):
-                    return "<./%s>" % path[5:] if k < 0.8 else "<../dir/%s>" % path[5:]
+        if self.base and rng.random() < 0.5:
+            cands = relative_refs(s, self.base)      # every candidate resolves (RFC 3986 5.2) against the base in scope to exactly s
+            if cands:
+                plain = [c for c in cands if not c.startswith(("/", ".", "#")) and c]
+                rel = rng.choice(plain) if plain and rng.random() < 0.5 else rng.choice(cands)
+                return "<%s>" % "".join(uesc(ch) if rng.random() < 0.08 and ch != "%" else ch for ch in rel)
         return "<%s>" % "".join(uesc(ch) if rng.random() < 0.07 else ch for ch in s)
 
     def iri(self, u, verb=False):
@@ -303,13 +390,29 @@ def _eol(rng, text):
     return text.replace("\n", "\r\n" if k < 0.85 else "\r")
 
 
-def write_turtle(rng, content):
+def swap_dir_ns(content):
+    """the same content with the namespaces http://ex.org/dir/ and http://ex.org/a/b/ exchanged: against the two bases BASE and BASE2 the
+    twin IRIs have the same relative spelling"""
+    A, B = "http://ex.org/dir/", "http://ex.org/a/b/"
+    def tm(x):
+        if isinstance(x, tuple): return (x[0], [tm(y) if not isinstance(y, tuple) or y[0] in ("props", "list") else (tm(y[0]), tm(y[1])) for y in x[1]]) if x[0] in ("props", "list") else tuple(tm(y) for y in x)
+        if isinstance(x, URIRef):
+            s_ = str(x)
+            if s_.startswith(A): return URIRef(B + s_[len(A):])
+            if s_.startswith(B): return URIRef(A + s_[len(B):])
+        return x
+    return [("t", tm(s_), tm(p), tm(o)) for _, s_, p, o in content]
+
+
+def write_turtle(rng, content, cut=None):
     t = Turtle(rng)
-    k = rng.randint(0, len(content)) if rng.random() < 0.3 else len(content)
-    out = t.header() + t.statements(content[:k])
-    if k < len(content):
-        out += t.redeclare()
-        out += t.statements(content[k:])
+    if cut is not None:
+        t.base_on = True; t.base = BASE
+    cuts = sorted(set(rng.sample(range(len(content) + 1), min(len(content) + 1, rng.choice([0, 0, 1, 2]))) + ([cut] if cut is not None else [])))
+    out = t.header(); prev = 0
+    for c in cuts:
+        out += t.statements(content[prev:c]); out += t.redeclare(force_base=(c == cut)); prev = c
+    out += t.statements(content[prev:])
     return _eol(rng, "\n".join(out) + rng.choice(["", "\n", "\n#end"]))
 
 
@@ -317,6 +420,7 @@ def write_trig(rng, graphs):
     """graphs: list of (name|None, content)."""
     t = Turtle(rng); out = t.header()
     for name, content in graphs:
+        if rng.random() < 0.25: out += t.redeclare()      # directives are allowed between graph blocks
         sts = t.statements(content)
         if name is None:
             out.extend(sts if rng.random() < 0.5 else ["{" + t.ws() + "\n".join(sts) + t.ws() + "}"])
@@ -344,13 +448,12 @@ def write_rdfxml(rng, content):
             if s.startswith(n_):
                 return (s[len(n_):] if n_ == default_ns else "%s:%s" % (p, s[len(n_):]))
         raise ValueError(s)
+    cur_base = [BASE if use_base else None]      # the base in scope of the element being written (xml:base can be nested)
     def ref(u):
         s = str(u)
-        if use_base and s.startswith(BASE + "#") and rng.random() < 0.7: return s[len(BASE):]
-        d = BASE.rsplit("/", 1)[0] + "/"
-        if use_base and s.startswith(d) and rng.random() < 0.5:
-            rel = s[len(d):]
-            if rel and ":" not in rel.split("/")[0] and not rel.startswith(("/", "?", "#", ".")): return rel
+        if cur_base[0] and rng.random() < 0.6:
+            cands = relative_refs(s, cur_base[0])
+            if cands: return rng.choice(cands)
         return s
     def text(s):
         if s and "]]>" not in s and "\r" not in s and rng.random() < 0.2: return "<![CDATA[" + s + "]]>"
@@ -363,9 +466,9 @@ def write_rdfxml(rng, content):
     used_ids = set()
     def subj_attr(s):
         if isinstance(s, BNode): return ' rdf:nodeID="%s"' % s
-        frag = str(s)[len(BASE) + 1:] if str(s).startswith(BASE + "#") else None
-        if use_base and frag and re.fullmatch(r"[A-Za-z_][\w.\-]*", frag) and frag not in used_ids and rng.random() < 0.6:
-            used_ids.add(frag); return ' rdf:ID="%s"' % frag
+        frag = str(s)[len(cur_base[0]) + 1:] if cur_base[0] and str(s).startswith(cur_base[0] + "#") else None
+        if frag and re.fullmatch(r"[A-Za-z_][\w.\-]*", frag) and (cur_base[0], frag) not in used_ids and rng.random() < 0.6:
+            used_ids.add((cur_base[0], frag)); return ' rdf:ID="%s"' % frag
         return ' rdf:about="%s"' % xesc(ref(s), True)
     def prop(p, o, lang_ctx):
         tag = qn(p)
@@ -407,7 +510,12 @@ def write_rdfxml(rng, content):
         tag = "rdf:Description"; rest = list(pos)
         if types and rng.random() < 0.6:
             tag = qn(types[0]); rest.remove((RDF.type, types[0]))
-        attrs = subj_attr(s) + (' xml:lang="%s"' % lang_ctx if lang_ctx else "")
+        nested_base = ""
+        if use_base and rng.random() < 0.3:
+            # an xml:base on this element (relative: resolved against the base in scope, i.e. the root's) governs the element's own attributes and everything inside it
+            cur_base[0] = BASE2
+            nested_base = ' xml:base="%s"' % xesc(rng.choice(relative_refs(BASE2, BASE) + [BASE2]), True)
+        attrs = nested_base + subj_attr(s) + (' xml:lang="%s"' % lang_ctx if lang_ctx else "")
         plain = [(p, o) for p, o in rest if isinstance(o, Literal) and o.datatype is None and ((o.language or None) == lang_ctx) and "\n" not in str(o) and "\t" not in str(o) and "\r" not in str(o)]
         seenp = set(); as_attr = []
         for p, o in plain:
@@ -423,6 +531,7 @@ def write_rdfxml(rng, content):
                 return re.sub(r"^<rdf:_\d+", "<rdf:li", re.sub(r"</rdf:_\d+>$", "</rdf:li>", x))
             return x
         body.append("<%s%s>%s</%s>" % (tag, attrs, "\n".join(prop_li(p, o) for p, o in rest), tag))
+        cur_base[0] = BASE if use_base else None
     head = '<?xml version="1.0" encoding="utf-8"?>\n<rdf:RDF xmlns:rdf="%s"' % str(RDF)
     for n_, p in ns.items():
         if p != "rdf": head += ' xmlns:%s="%s"' % (p, n_)
